@@ -4,24 +4,18 @@ import GeomV.C03.ProofsScale
 
 The weights of the `MultiPolygon.Centroid` loop go through `area()`, whose hole sign is decided by
 within.go's point-in-polygon test.  Here: C02's model of that test (`GeomV.C02.pointInPolygon` with the
-bounds of the same rings, i.e. `Model.pip`) answers the same for a point and rings that are all divided
-by the same positive `k` (`pip_scale`: via C02's theorem `pointInPolygon_spec`, segment by segment);
-hence `area()` is homogeneous of degree 2 (`ringArea_scale`, `C03_area_scale`), the multi-polygon loop
-is homogeneous (`multiPolygonCentroidCore_scale`), and the range guard of fix 4edcec2 is the identity on
-the exact model for `MultiPolygon.Centroid` too (`C03_mcentroid_guard`) — on every input.
+bounds of the same rings, i.e. `Model.pip`) answers the same for a point and rings whose X coordinates
+are all divided by the same positive `kx` and Y coordinates by the same positive `ky` (`pip_scale`: via
+C02's theorem `pointInPolygon_spec`, segment by segment); hence `area()` is homogeneous
+(`ringArea_scale`, `C03_area_scale`), the multi-polygon loop is homogeneous
+(`multiPolygonCentroidCore_scale`), and the range guard is the identity on the exact model for
+`MultiPolygon.Centroid` too (`C03_mcentroid_guard`) — on every input.
 -/
 namespace GeomV.C03
 open Spec
 set_option linter.unusedSimpArgs false
 
-/-- a point divided by `k` -/
-def scPt (k : Rat) (v : P) : P := ⟨v.x / k, v.y / k⟩
-def scSeg (k : Rat) (s : P × P) : P × P := (scPt k s.1, scPt k s.2)
-
-theorem scaleRing_eq_map (k : Rat) (r : Ring) : scaleRing k r = r.map (scPt k) := rfl
-
-theorem scPt_inj (k : Rat) (hk : k ≠ 0) (a b : P) : scPt k a = scPt k b ↔ a = b :=
-  scalePt_inj k hk a b
+def scSeg (kx ky : Rat) (s : P × P) : P × P := (scPt kx ky s.1, scPt kx ky s.2)
 
 /-! ### C02's specification of the point-in-polygon test under scaling -/
 
@@ -36,18 +30,14 @@ theorem c02_pairs_map (f : P → P) (l : List P) :
       simp only [List.map_cons, C02.Spec.pairs] at ih ⊢
       rw [ih]
 
-theorem c02_segments_scale (k : Rat) (hk : k ≠ 0) (r : Ring) :
-    C02.Spec.segments (scaleRing k r) = (C02.Spec.segments r).map (scSeg k) := by
+theorem c02_segments_scale (kx ky : Rat) (hx : kx ≠ 0) (hy : ky ≠ 0) (r : Ring) :
+    C02.Spec.segments (scaleRing kx ky r) = (C02.Spec.segments r).map (scSeg kx ky) := by
   unfold C02.Spec.segments
   rw [scaleRing_length]
   by_cases h3 : r.length < 3
   · rw [if_pos h3, if_pos h3]; rfl
   · rw [if_neg h3, if_neg h3]
-    have hl : (scaleRing k r).getLast? = r.getLast?.map (scPt k) := by
-      rw [scaleRing_eq_map, List.getLast?_map]
-    have hh : (scaleRing k r).head? = r.head?.map (scPt k) := by
-      rw [scaleRing_eq_map, List.head?_map]
-    rw [hl, hh]
+    rw [getLast?_scale, head?_scale]
     cases hH : r.head? with
     | none => rfl
     | some first =>
@@ -58,9 +48,9 @@ theorem c02_segments_scale (k : Rat) (hk : k ≠ 0) (r : Ring) :
         rw [scaleRing_eq_map, c02_pairs_map]
         congr 1
         by_cases e : last = first
-        · have e' : scPt k last = scPt k first := by rw [e]
+        · have e' : scPt kx ky last = scPt kx ky first := by rw [e]
           simp [e, e']
-        · have e' : scPt k last ≠ scPt k first := fun c => e ((scPt_inj k hk _ _).mp c)
+        · have e' : scPt kx ky last ≠ scPt kx ky first := fun c => e ((scPt_inj kx ky hx hy _ _).mp c)
           simp [e, e', scSeg]
 
 theorem div_le_div_pos (k : Rat) (hk : 0 < k) (a b : Rat) : a / k ≤ b / k ↔ a ≤ b := by
@@ -78,74 +68,75 @@ theorem c02_between_scale (k : Rat) (hk : 0 < k) (u v w : Rat) :
   unfold C02.Spec.between
   simp only [div_le_div_pos k hk]
 
-theorem c02_onSeg_scale (k : Rat) (hk : 0 < k) (p : P) (s : P × P) :
-    C02.Spec.onSeg (scPt k p) (scSeg k s) = C02.Spec.onSeg p s := by
-  have hk0 : k ≠ 0 := ne_of_gt hk
-  have hk2 : k ^ 2 ≠ 0 := pow_ne_zero 2 hk0
+theorem c02_onSeg_scale (kx ky : Rat) (hx : 0 < kx) (hy : 0 < ky) (p : P) (s : P × P) :
+    C02.Spec.onSeg (scPt kx ky p) (scSeg kx ky s) = C02.Spec.onSeg p s := by
+  have hxy : kx * ky ≠ 0 := mul_ne_zero (ne_of_gt hx) (ne_of_gt hy)
   unfold C02.Spec.onSeg scSeg scPt
-  simp only [c02_between_scale k hk]
+  simp only [c02_between_scale kx hx, c02_between_scale ky hy]
   congr 1
-  have e1 : (s.2.x / k - s.1.x / k) * (p.y / k - s.1.y / k) = (s.2.x - s.1.x) * (p.y - s.1.y) / k ^ 2 := by ring
-  have e2 : (s.2.y / k - s.1.y / k) * (p.x / k - s.1.x / k) = (s.2.y - s.1.y) * (p.x - s.1.x) / k ^ 2 := by ring
+  have e1 : (s.2.x / kx - s.1.x / kx) * (p.y / ky - s.1.y / ky) = (s.2.x - s.1.x) * (p.y - s.1.y) / (kx * ky) := by ring
+  have e2 : (s.2.y / ky - s.1.y / ky) * (p.x / kx - s.1.x / kx) = (s.2.y - s.1.y) * (p.x - s.1.x) / (kx * ky) := by ring
   rw [e1, e2]
-  simp only [div_left_inj' hk2]
+  simp only [div_left_inj' hxy]
 
-theorem c02_crossHO_scale (k : Rat) (hk : 0 < k) (p : P) (s : P × P) :
-    C02.Spec.crossHO (scPt k p) (scSeg k s) = C02.Spec.crossHO p s := by
-  have hk0 : k ≠ 0 := ne_of_gt hk
+theorem c02_crossHO_scale (kx ky : Rat) (hx : 0 < kx) (hy : 0 < ky) (p : P) (s : P × P) :
+    C02.Spec.crossHO (scPt kx ky p) (scSeg kx ky s) = C02.Spec.crossHO p s := by
+  have hx0 : kx ≠ 0 := ne_of_gt hx
+  have hy0 : ky ≠ 0 := ne_of_gt hy
   unfold C02.Spec.crossHO
-  have hlo : (if (scSeg k s).1.y ≤ (scSeg k s).2.y then (scSeg k s).1 else (scSeg k s).2)
-      = scPt k (if s.1.y ≤ s.2.y then s.1 else s.2) := by
-    simp only [scSeg, scPt, div_le_div_pos k hk]; split <;> rfl
-  have hhi : (if (scSeg k s).1.y ≤ (scSeg k s).2.y then (scSeg k s).2 else (scSeg k s).1)
-      = scPt k (if s.1.y ≤ s.2.y then s.2 else s.1) := by
-    simp only [scSeg, scPt, div_le_div_pos k hk]; split <;> rfl
+  have hlo : (if (scSeg kx ky s).1.y ≤ (scSeg kx ky s).2.y then (scSeg kx ky s).1 else (scSeg kx ky s).2)
+      = scPt kx ky (if s.1.y ≤ s.2.y then s.1 else s.2) := by
+    simp only [scSeg, scPt, div_le_div_pos ky hy]; split <;> rfl
+  have hhi : (if (scSeg kx ky s).1.y ≤ (scSeg kx ky s).2.y then (scSeg kx ky s).2 else (scSeg kx ky s).1)
+      = scPt kx ky (if s.1.y ≤ s.2.y then s.2 else s.1) := by
+    simp only [scSeg, scPt, div_le_div_pos ky hy]; split <;> rfl
   simp only [hlo, hhi]
   generalize (if s.1.y ≤ s.2.y then s.1 else s.2) = lo
   generalize (if s.1.y ≤ s.2.y then s.2 else s.1) = hi
-  simp only [scPt, div_le_div_pos k hk, div_lt_div_pos k hk]
+  simp only [scPt, div_le_div_pos ky hy, div_lt_div_pos ky hy]
   congr 2
-  have e : lo.x / k + (p.y / k - lo.y / k) * (hi.x / k - lo.x / k) / (hi.y / k - lo.y / k)
-      = (lo.x + (p.y - lo.y) * (hi.x - lo.x) / (hi.y - lo.y)) / k := by
-    have e0 : hi.y / k - lo.y / k = (hi.y - lo.y) / k := by ring
+  have e : lo.x / kx + (p.y / ky - lo.y / ky) * (hi.x / kx - lo.x / kx) / (hi.y / ky - lo.y / ky)
+      = (lo.x + (p.y - lo.y) * (hi.x - lo.x) / (hi.y - lo.y)) / kx := by
+    have e0 : hi.y / ky - lo.y / ky = (hi.y - lo.y) / ky := by ring
     rw [e0]
     by_cases hc : hi.y - lo.y = 0
     · rw [hc]; simp
     · field_simp
-  rw [e, div_lt_div_pos k hk]
+  rw [e, div_lt_div_pos kx hx]
 
-theorem c02_flatMap_segments_scale (k : Rat) (hk : k ≠ 0) (rings : Poly) :
-    (scalePoly k rings).flatMap C02.Spec.segments = (rings.flatMap C02.Spec.segments).map (scSeg k) := by
+theorem c02_flatMap_segments_scale (kx ky : Rat) (hx : kx ≠ 0) (hy : ky ≠ 0) (rings : Poly) :
+    (scalePoly kx ky rings).flatMap C02.Spec.segments = (rings.flatMap C02.Spec.segments).map (scSeg kx ky) := by
   induction rings with
   | nil => rfl
   | cons r t ih =>
-    have e : scalePoly k (r :: t) = scaleRing k r :: scalePoly k t := rfl
-    rw [e, List.flatMap_cons, List.flatMap_cons, List.map_append, ih, c02_segments_scale k hk]
+    have e : scalePoly kx ky (r :: t) = scaleRing kx ky r :: scalePoly kx ky t := rfl
+    rw [e, List.flatMap_cons, List.flatMap_cons, List.map_append, ih, c02_segments_scale kx ky hx hy]
 
-theorem ringsVerdict_scale (k : Rat) (hk : 0 < k) (pt : P) (rings : Poly) (b : Bool) :
-    C02.ringsVerdict (scPt k pt) (scalePoly k rings) b = C02.ringsVerdict pt rings b := by
+theorem ringsVerdict_scale (kx ky : Rat) (hx : 0 < kx) (hy : 0 < ky) (pt : P) (rings : Poly) (b : Bool) :
+    C02.ringsVerdict (scPt kx ky pt) (scalePoly kx ky rings) b = C02.ringsVerdict pt rings b := by
   unfold C02.ringsVerdict
-  rw [c02_flatMap_segments_scale k (ne_of_gt hk), List.any_map, List.countP_map]
-  have h1 : (C02.Spec.onSeg (scPt k pt) ∘ scSeg k) = C02.Spec.onSeg pt := by
-    funext s; exact c02_onSeg_scale k hk pt s
-  have h2 : (C02.Spec.crossHO (scPt k pt) ∘ scSeg k) = C02.Spec.crossHO pt := by
-    funext s; exact c02_crossHO_scale k hk pt s
+  rw [c02_flatMap_segments_scale kx ky (ne_of_gt hx) (ne_of_gt hy), List.any_map, List.countP_map]
+  have h1 : (C02.Spec.onSeg (scPt kx ky pt) ∘ scSeg kx ky) = C02.Spec.onSeg pt := by
+    funext s; exact c02_onSeg_scale kx ky hx hy pt s
+  have h2 : (C02.Spec.crossHO (scPt kx ky pt) ∘ scSeg kx ky) = C02.Spec.crossHO pt := by
+    funext s; exact c02_crossHO_scale kx ky hx hy pt s
   rw [h1, h2]
 
 /-- **within.go's point-in-polygon test (C02's model) is invariant under positive scaling** of the
-point and the rings together — every point, every list of rings, every `k > 0`. -/
-theorem pip_scale (k : Rat) (hk : 0 < k) (pt : P) (rings : Poly) :
-    pip (scPt k pt) (scalePoly k rings) = pip pt rings := by
-  rw [pip_eq, pip_eq, ringsVerdict_scale k hk]
+point and the rings together, each axis by its own factor — every point, every list of rings, every
+`kx, ky > 0`. -/
+theorem pip_scale (kx ky : Rat) (hx : 0 < kx) (hy : 0 < ky) (pt : P) (rings : Poly) :
+    pip (scPt kx ky pt) (scalePoly kx ky rings) = pip pt rings := by
+  rw [pip_eq, pip_eq, ringsVerdict_scale kx ky hx hy]
 
 /-! ### `area()` under scaling -/
 
-theorem mid_scale (k : Rat) (a b : P) : mid (scPt k a) (scPt k b) = scPt k (mid a b) := by
+theorem mid_scale (kx ky : Rat) (a b : P) : mid (scPt kx ky a) (scPt kx ky b) = scPt kx ky (mid a b) := by
   unfold mid scPt
   congr 1 <;> ring
 
-theorem midsAux_scale (k : Rat) (f : P) (l : List P) :
-    midsAux (scPt k f) (l.map (scPt k)) = (midsAux f l).map (scPt k) := by
+theorem midsAux_scale (kx ky : Rat) (f : P) (l : List P) :
+    midsAux (scPt kx ky f) (l.map (scPt kx ky)) = (midsAux f l).map (scPt kx ky) := by
   induction l with
   | nil => rfl
   | cons x t ih =>
@@ -155,21 +146,22 @@ theorem midsAux_scale (k : Rat) (f : P) (l : List P) :
       simp only [List.map_cons, midsAux] at ih ⊢
       rw [ih, mid_scale]
 
-theorem edgeMids_scale (k : Rat) (r : Ring) : edgeMids (scaleRing k r) = scaleRing k (edgeMids r) := by
+theorem edgeMids_scale (kx ky : Rat) (r : Ring) :
+    edgeMids (scaleRing kx ky r) = scaleRing kx ky (edgeMids r) := by
   cases r with
   | nil => rfl
   | cons a t =>
     rw [scaleRing_eq_map, scaleRing_eq_map]
-    show midsAux (scPt k a) ((a :: t).map (scPt k)) = _
+    show midsAux (scPt kx ky a) ((a :: t).map (scPt kx ky)) = _
     rw [midsAux_scale]; rfl
 
-theorem firstDecisive_scale (k : Rat) (hk : 0 < k) (others : Poly) (l : List P) :
-    firstDecisive (scalePoly k others) (l.map (scPt k)) = firstDecisive others l := by
+theorem firstDecisive_scale (kx ky : Rat) (hx : 0 < kx) (hy : 0 < ky) (others : Poly) (l : List P) :
+    firstDecisive (scalePoly kx ky others) (l.map (scPt kx ky)) = firstDecisive others l := by
   induction l with
   | nil => rfl
   | cons v t ih =>
     simp only [List.map_cons, firstDecisive]
-    rw [pip_scale k hk, ih]
+    rw [pip_scale kx ky hx hy, ih]
 
 theorem absR_nonneg (q : Rat) : 0 ≤ absR q := by rw [absR_eq_abs]; exact abs_nonneg q
 
@@ -178,8 +170,8 @@ theorem similar_zero (a b : Rat) : similar a b 0 = false := by
   simp only [decide_eq_false_iff_not, not_lt]
   exact absR_nonneg _
 
-theorem pointsSimilar_zero_scale (k : Rat) (r g : Ring) :
-    pointsSimilar 0 (scaleRing k r) (scaleRing k g) = pointsSimilar 0 r g := by
+theorem pointsSimilar_zero_scale (kx ky : Rat) (r g : Ring) :
+    pointsSimilar 0 (scaleRing kx ky r) (scaleRing kx ky g) = pointsSimilar 0 r g := by
   cases r with
   | nil => cases g <;> rfl
   | cons a t =>
@@ -188,63 +180,65 @@ theorem pointsSimilar_zero_scale (k : Rat) (r g : Ring) :
     | cons b u =>
       simp [scaleRing, pointsSimilar, similar_zero]
 
-theorem absR_div_sq (k : Rat) (hk : k ≠ 0) (q : Rat) : absR (q / k ^ 2) = absR q / k ^ 2 := by
-  have h2 : 0 < k ^ 2 := by positivity
-  rw [absR_eq_abs, absR_eq_abs, abs_div, abs_of_pos h2]
+theorem absR_div_pos (c : Rat) (hc : 0 < c) (q : Rat) : absR (q / c) = absR q / c := by
+  rw [absR_eq_abs, absR_eq_abs, abs_div, abs_of_pos hc]
 
-/-- **`area(r, i, p, bounds)` is homogeneous of degree 2**: every ring, every list of other rings,
-every `k > 0` — the hole decision (vertices, edge middles, identical-ring fallback) is the same on the
-scaled copy. -/
-theorem ringArea_scale (k : Rat) (hk : 0 < k) (single : Bool) (r : Ring) (others : Poly) :
-    ringArea single (scaleRing k r) (scalePoly k others) = ringArea single r others / k ^ 2 := by
-  have hk0 : k ≠ 0 := ne_of_gt hk
+/-- **`area(r, i, p, bounds)` is homogeneous**: every ring, every list of other rings, every
+`kx, ky > 0` — the hole decision (vertices, edge middles, identical-ring fallback) is the same on the
+scaled copy, the value is divided by `kx · ky`. -/
+theorem ringArea_scale (kx ky : Rat) (hx : 0 < kx) (hy : 0 < ky) (single : Bool) (r : Ring) (others : Poly) :
+    ringArea single (scaleRing kx ky r) (scalePoly kx ky others) = ringArea single r others / (kx * ky) := by
+  have hx0 : kx ≠ 0 := ne_of_gt hx
+  have hy0 : ky ≠ 0 := ne_of_gt hy
+  have hxy : 0 < kx * ky := by positivity
   unfold ringArea
   rw [scaleRing_length]
   by_cases hl : r.length < 2
   · rw [if_pos hl, if_pos hl]; simp
   · rw [if_neg hl, if_neg hl]
     simp only []
-    rw [goCyc_shoeF_scale k hk0]
-    have hA : absR (goCyc shoeF r / k ^ 2 / 2) = absR (goCyc shoeF r / 2) / k ^ 2 := by
-      rw [← absR_div_sq k hk0]; congr 1; ring
+    rw [goCyc_shoeF_scale kx ky hx0 hy0]
+    have hA : absR (goCyc shoeF r / (kx * ky) / 2) = absR (goCyc shoeF r / 2) / (kx * ky) := by
+      rw [← absR_div_pos _ hxy]; congr 1; ring
     rw [hA]
     cases single with
     | true => simp
     | false =>
       simp only [Bool.false_eq_true, if_false]
-      have hpts : scaleRing k r ++ edgeMids (scaleRing k r) = (r ++ edgeMids r).map (scPt k) := by
+      have hpts : scaleRing kx ky r ++ edgeMids (scaleRing kx ky r) = (r ++ edgeMids r).map (scPt kx ky) := by
         rw [edgeMids_scale, scaleRing_eq_map, scaleRing_eq_map, List.map_append]
-      rw [hpts, firstDecisive_scale k hk]
-      have hm : ((scalePoly k others).filter (pointsSimilar 0 (scaleRing k r))).length
+      rw [hpts, firstDecisive_scale kx ky hx hy]
+      have hm : ((scalePoly kx ky others).filter (pointsSimilar 0 (scaleRing kx ky r))).length
           = (others.filter (pointsSimilar 0 r)).length := by
         unfold scalePoly
         rw [List.filter_map, List.length_map]
         congr 2
         funext g
-        exact pointsSimilar_zero_scale k r g
+        exact pointsSimilar_zero_scale kx ky r g
       rw [hm]
       cases firstDecisive others (r ++ edgeMids r) with
       | none => simp only []; split <;> ring
       | some s => cases s <;> simp only [] <;> ring
 
-theorem scalePoly_append (k : Rat) (a b : Poly) : scalePoly k (a ++ b) = scalePoly k a ++ scalePoly k b := by
+theorem scalePoly_append (kx ky : Rat) (a b : Poly) :
+    scalePoly kx ky (a ++ b) = scalePoly kx ky a ++ scalePoly kx ky b := by
   simp [scalePoly]
 
-theorem withOthers_scale (k : Rat) (rest : Poly) : ∀ pre : Poly,
-    withOthers (scalePoly k pre) (scalePoly k rest)
-      = (withOthers pre rest).map fun ro => (scaleRing k ro.1, scalePoly k ro.2) := by
+theorem withOthers_scale (kx ky : Rat) (rest : Poly) : ∀ pre : Poly,
+    withOthers (scalePoly kx ky pre) (scalePoly kx ky rest)
+      = (withOthers pre rest).map fun ro => (scaleRing kx ky ro.1, scalePoly kx ky ro.2) := by
   induction rest with
   | nil => intro pre; rfl
   | cons r t ih =>
     intro pre
-    have e : scalePoly k (r :: t) = scaleRing k r :: scalePoly k t := rfl
+    have e : scalePoly kx ky (r :: t) = scaleRing kx ky r :: scalePoly kx ky t := rfl
     rw [e]
     simp only [withOthers, List.map_cons]
-    have e2 : scalePoly k pre ++ [scaleRing k r] = scalePoly k (pre ++ [r]) := by
+    have e2 : scalePoly kx ky pre ++ [scaleRing kx ky r] = scalePoly kx ky (pre ++ [r]) := by
       rw [scalePoly_append]; rfl
     rw [e2, ih, scalePoly_append]
 
-theorem scalePoly_length (k : Rat) (p : Poly) : (scalePoly k p).length = p.length := by
+theorem scalePoly_length (kx ky : Rat) (p : Poly) : (scalePoly kx ky p).length = p.length := by
   simp [scalePoly]
 
 theorem sum_div (l : List Rat) (c : Rat) : (l.map (· / c)).sum = l.sum / c := by
@@ -252,63 +246,64 @@ theorem sum_div (l : List Rat) (c : Rat) : (l.map (· / c)).sum = l.sum / c := b
   | nil => simp
   | cons a t ih => simp only [List.map_cons, List.sum_cons, ih]; ring
 
-/-- **`Polygon.Area` is homogeneous of degree 2** on the exact model, every input, every `k > 0`. -/
-theorem C03_area_scale (k : Rat) (hk : 0 < k) (p : Poly) :
-    polygonArea (scalePoly k p) = polygonArea p / k ^ 2 := by
+/-- **`Polygon.Area` is homogeneous** on the exact model, every input, every `kx, ky > 0`. -/
+theorem C03_area_scale (kx ky : Rat) (hx : 0 < kx) (hy : 0 < ky) (p : Poly) :
+    polygonArea (scalePoly kx ky p) = polygonArea p / (kx * ky) := by
   unfold polygonArea
-  have h0 : withOthers [] (scalePoly k p) = withOthers (scalePoly k []) (scalePoly k p) := rfl
+  have h0 : withOthers [] (scalePoly kx ky p) = withOthers (scalePoly kx ky []) (scalePoly kx ky p) := rfl
   rw [h0, withOthers_scale, List.map_map, scalePoly_length, ← sum_div, List.map_map]
   congr 1
   apply List.map_congr_left
   intro ro _
   simp only [Function.comp]
-  exact ringArea_scale k hk _ ro.1 ro.2
+  exact ringArea_scale kx ky hx hy _ ro.1 ro.2
 
 /-! ### the `MultiPolygon.Centroid` loop -/
 
-theorem pairSum_scale3' (f : P → P → Rat) (k : Rat)
-    (hf : ∀ a b : P, f ⟨a.x / k, a.y / k⟩ ⟨b.x / k, b.y / k⟩ = f a b / k ^ 3) (l : List P) :
-    pairSum f (scaleRing k l) = pairSum f l / k ^ 3 := pairSum_scale3 f k hf l
-
-theorem mpCentroidRings_scale (k : Rat) (hk : 0 < k) (single : Bool) (l : List (Ring × Poly)) (s : CAcc) :
-    mpCentroidRings single (l.map fun ro => (scaleRing k ro.1, scalePoly k ro.2)) (s.sc k)
-      = (mpCentroidRings single l s).sc k := by
-  have hk0 : k ≠ 0 := ne_of_gt hk
+theorem mpCentroidRings_scale (kx ky : Rat) (hx : 0 < kx) (hy : 0 < ky) (single : Bool)
+    (l : List (Ring × Poly)) (s : CAcc) :
+    mpCentroidRings single (l.map fun ro => (scaleRing kx ky ro.1, scalePoly kx ky ro.2)) (s.sc kx ky)
+      = (mpCentroidRings single l s).sc kx ky := by
+  have hx0 : kx ≠ 0 := ne_of_gt hx
+  have hy0 : ky ≠ 0 := ne_of_gt hy
   induction l generalizing s with
   | nil => rfl
   | cons ro t ih =>
     obtain ⟨r, others⟩ := ro
     simp only [List.map_cons, mpCentroidRings]
-    rw [pairSum_scale3 cxF k (cxF_scale k hk0), pairSum_scale3 cyF k (cyF_scale k hk0),
-      signedArea_scale k hk0, ringArea_scale k hk, CAcc.add_sc k hk0, ih]
+    rw [pairSum_cx_scale kx ky hx0 hy0, pairSum_cy_scale kx ky hx0 hy0,
+      signedArea_scale kx ky hx0 hy0, ringArea_scale kx ky hx hy, CAcc.add_sc kx ky hx0 hy0, ih]
 
-theorem mpCentroidAcc_scale (k : Rat) (hk : 0 < k) (mp : MPoly) (s : CAcc) :
-    mpCentroidAcc (mp.map (scalePoly k)) (s.sc k) = (mpCentroidAcc mp s).sc k := by
+theorem mpCentroidAcc_scale (kx ky : Rat) (hx : 0 < kx) (hy : 0 < ky) (mp : MPoly) (s : CAcc) :
+    mpCentroidAcc (mp.map (scalePoly kx ky)) (s.sc kx ky) = (mpCentroidAcc mp s).sc kx ky := by
   induction mp generalizing s with
   | nil => rfl
   | cons p t ih =>
     simp only [List.map_cons, mpCentroidAcc]
-    have h0 : withOthers [] (scalePoly k p) = withOthers (scalePoly k []) (scalePoly k p) := rfl
-    rw [h0, withOthers_scale, scalePoly_length, mpCentroidRings_scale k hk, ih]
+    have h0 : withOthers [] (scalePoly kx ky p) = withOthers (scalePoly kx ky []) (scalePoly kx ky p) := rfl
+    rw [h0, withOthers_scale, scalePoly_length, mpCentroidRings_scale kx ky hx hy, ih]
 
-/-- **Homogeneity of the `MultiPolygon.Centroid` loop**: for every positive `k`, the loop on the copy
-divided by `k`, multiplied back, is the loop on the original — values and non-finite outcomes alike;
-the weights `area(r, i, p, b)` included (their hole decision is scale invariant, `pip_scale`). -/
-theorem multiPolygonCentroidCore_scale (k : Rat) (hk : 0 < k) (mp : MPoly) :
-    unscale k (multiPolygonCentroidCore (mp.map (scalePoly k))) = multiPolygonCentroidCore mp := by
+/-- **Homogeneity of the `MultiPolygon.Centroid` loop**: for every positive `kx`, `ky`, the loop on the
+copy with X divided by `kx` and Y by `ky`, multiplied back, is the loop on the original — values and
+non-finite outcomes alike; the weights `area(r, i, p, b)` included (their hole decision is scale
+invariant, `pip_scale`). -/
+theorem multiPolygonCentroidCore_scale (kx ky : Rat) (hx : 0 < kx) (hy : 0 < ky) (mp : MPoly) :
+    unscale kx ky (multiPolygonCentroidCore (mp.map (scalePoly kx ky))) = multiPolygonCentroidCore mp := by
   unfold multiPolygonCentroidCore
-  have h0 : CAcc.zero = CAcc.zero.sc k := by simp [CAcc.zero, CAcc.sc]
-  rw [h0, mpCentroidAcc_scale k hk, ← h0, finish_sc k hk]
+  have h0 : CAcc.zero = CAcc.zero.sc kx ky := by simp [CAcc.zero, CAcc.sc]
+  rw [h0, mpCentroidAcc_scale kx ky hx hy, ← h0, finish_sc kx ky hx hy]
 
 /-- **`MultiPolygon.Centroid` with its range guard is its loop**, on every input (exact model). -/
 theorem C03_mcentroid_guard (mp : MPoly) : multiPolygonCentroid mp = multiPolygonCentroidCore mp := by
   unfold multiPolygonCentroid
   cases h : centScale mp.flatten with
   | none => rfl
-  | some k => exact multiPolygonCentroidCore_scale k (centScale_pos h) mp
+  | some k =>
+    obtain ⟨kx, ky⟩ := k
+    exact multiPolygonCentroidCore_scale kx ky (centScale_pos h).1 (centScale_pos h).2 mp
 
-/-- **Centroid clause for `MultiPolygon.Centroid` as it is now** (range guard of fix 4edcec2 included,
-rescaled branch too): `C03_mcentroid` for the guarded function, no in-range hypothesis. -/
+/-- **Centroid clause for `MultiPolygon.Centroid` as it is now** (range guard included, rescaled
+branch too): `C03_mcentroid` for the guarded function, no in-range hypothesis. -/
 theorem C03_mcentroid_guarded_all (mp : MPoly) (sss : List (List Spell))
     (hlen : List.Forall₂ (fun ss p => ss.length = p.length) sss mp)
     (hclosed : ∀ ss ∈ sss, ∀ s ∈ ss, s.closed = true)
@@ -317,8 +312,8 @@ theorem C03_mcentroid_guarded_all (mp : MPoly) (sss : List (List Spell))
     multiPolygonCentroid (List.zipWith respell sss mp) = (.fin (mcentroid mp).x, .fin (mcentroid mp).y) := by
   rw [C03_mcentroid_guard]; exact C03_mcentroid mp sss hlen hclosed hv hW
 
-/-- non-vacuity: the guard fires on the two-member example scaled by 2^400 (all rings closed) -/
-example : (centScale ((List.zipWith respell exMSpell exMP).map (scalePoly (1 / 2 ^ 400))).flatten).isSome = true := by
+/-- non-vacuity: the guard fires on the two-member example with Y multiplied by 2^400 (all rings closed) -/
+example : (centScale ((List.zipWith respell exMSpell exMP).map (scalePoly 1 (1 / 2 ^ 400))).flatten).isSome = true := by
   decide +kernel
 
 end GeomV.C03
